@@ -693,7 +693,9 @@ impl ByteReader for SliceReader<'_> {
     }
 
     fn check_eor(&self, num_bytes: usize) -> Result<(), DeserializationError> {
-        if self.pos + num_bytes > self.source.len() {
+        // `pos` never exceeds the source length; comparing against the remaining length avoids
+        // overflowing `pos + num_bytes` for lengths taken from corrupted input
+        if num_bytes > self.source.len() - self.pos {
             return Err(DeserializationError::UnexpectedEOF);
         }
         Ok(())
